@@ -20,6 +20,7 @@ CfgC == [ls |-> Gl(0, 0, 1, 0, 2), rs |-> Gl(0, 9, 1, 0, 0), pfs |-> Fil,
 
 ConfigsQuick == {CfgA, CfgB, CfgC}
 ConfigsOne == {CfgA}
+ConfigsTwo == {CfgA, CfgB}
 KindsAll == {"c", "g", "p", "x", "n", "d0", "d1", "d2", "d3"}
 KindsCore == {"c", "g", "p", "x", "d2"}
 NoDevs == {}
